@@ -235,6 +235,51 @@ def main():
                           "fn main()\n{\n\tvar x: i32 = 1;\n\tvar y: u8 = 1;\n\tvar p: &i32 = &x;\n\tvar arr: [2]i32 = [1, 2];\n"
                           "\tvar arr8: [2]u8 = [1, 2];\n\tvar a: %s = %s;\n\tvar c: %s = %sa as %s;\n}\n"
                           % (s_, init, d_, "&" * s_.count("&"), d_)))
+    # source files that have the same place under the output directory (`lib.pn` and `../lib.pn`, named from a subdirectory):
+    # a successful emit leaves the IR of EVERY module, so either both files are there or the tool does not report success
+    cd = os.path.join(work, "collision")
+    os.makedirs(os.path.join(cd, "sub"))
+    open(os.path.join(cd, "lib.pn"), "w").write('import "lib.pn";\nfn main() -> i32\n{\n\treturn: helper()\n}\n')
+    open(os.path.join(cd, "sub", "lib.pn"), "w").write("pub fn helper() -> i32\n{\n\treturn: 3\n}\n")
+    for names in (["../lib.pn", "lib.pn"], ["lib.pn", "../lib.pn"]):
+        od = os.path.join(cd, "out%d" % (names[0] == "lib.pn"))
+        pr = subprocess.run([penne, "emit", "--color=never", "--out-dir", od] + names, cwd=os.path.join(cd, "sub"),
+                            stdout=subprocess.PIPE, stderr=subprocess.PIPE, timeout=120)
+        lls = []
+        for root, _dirs, fs in os.walk(od):
+            lls += [open(os.path.join(root, x), "rb").read() for x in fs if x.endswith(".ll")]
+        has_main = any(b"@main" in x for x in lls)
+        has_helper = any(b"define" in x and b"@helper" in x and b"@main" not in x for x in lls)
+        dist["same-output-place:exit%d" % (0 if pr.returncode == 0 else 1)] += 1
+        if pr.returncode == 0 and not (has_main and has_helper):
+            rep.violation("cli:two-modules-one-output-file:" + names[0], {
+                "why": "`penne emit --out-dir D %s` (from the directory sub/) exits 0, but the output directory holds the IR of %d "
+                       "module(s), not of both: one file was written over the other" % (" ".join(names), len(lls)),
+                "files": {"lib.pn": open(os.path.join(cd, "lib.pn")).read(), "sub/lib.pn": open(os.path.join(cd, "sub", "lib.pn")).read()},
+                "argv": ["penne", "emit", "--out-dir", "D"] + names, "cwd": "sub/", "output": (pr.stdout + pr.stderr)[-600:].decode("utf-8", "replace")})
+    # a backend that does not read its input (it is free to): the tool's status is the backend's status, whether the IR fits the
+    # pipe's buffer (small module: the write used to race with the backend's exit) or not (1500 functions: 200 KiB)
+    bd = os.path.join(work, "noreader")
+    os.makedirs(bd)
+    open(os.path.join(bd, "small.pn"), "w").write("fn main() -> i32\n{\n\treturn: 3\n}\n")
+    open(os.path.join(bd, "big.pn"), "w").write("".join("pub fn f%d() -> i32\n{\n\treturn: %d\n}\n" % (i, i % 100) for i in range(1500))
+                                                 + "fn main() -> i32\n{\n\treturn: f7()\n}\n")
+    for be, want in (("true", 0), ("false", 1)):
+        bpath = next((os.path.join(x, be) for x in ("/bin", "/usr/bin") if os.path.exists(os.path.join(x, be))), None)
+        if bpath is None:
+            continue
+        for src, reps in (("big.pn", 1), ("small.pn", 4)):
+            for _k in range(reps):
+                pr = subprocess.run([penne, "build", "--backend", bpath, "--out-dir", os.path.join(bd, "o"), src], cwd=bd,
+                                    stdout=subprocess.PIPE, stderr=subprocess.PIPE, timeout=120)
+                got = 0 if pr.returncode == 0 else 1
+                dist["backend-without-reader:%s:%s:exit%d" % (be, src, got)] += 1
+                if got != want:
+                    rep.violation("cli:backend-that-does-not-read:%s:%s" % (be, src), {
+                        "why": "`penne build --backend %s %s`: the backend ends with status %d without reading the IR, the tool exits with %d"
+                               % (bpath, src, want, pr.returncode),
+                        "argv": ["penne", "build", "--backend", bpath, src], "output": (pr.stdout + pr.stderr)[-400:].decode("utf-8", "replace")})
+                    break
     srng = rng.fork("sweep")
     cps = faultgen.corpus()
     for i in range(400 if thorough else 60):
